@@ -23,5 +23,6 @@ def check(run):
     common.mc_structs(run, kinds=("mapping",))
     run.gen("Gen_Build", consts={"Fam": "mapping"}, tag="Gen_Build_mapping")
     common.gen_structs(run, fams1=("mapping",), fams2=())
+    run.gen("Gen_MapBodies")
     run.replay_and_judge()
     return vlib.finish(run, "model_checking", RULE, ASSUME)
